@@ -8,7 +8,7 @@ PLANS = {
   'C02': _STACKS,
   'C12': _STACKS,
   'C14': [('w_stack', {'stack': 'thrift'}, 2.0), ('w_stack', {'stack': 'mux'}, 1.0)],
-  'C18': _STACKS,
+  'C18': _STACKS + [('w_varz', {}, 1.0)],
   'C13': [('w_stack', {'stack': 'mux'}, 1.0)],
   'C17': [('w_async', {}, 1.0)],
   'C15': [('w_kafka', {}, 1.0)],
